@@ -221,6 +221,11 @@ func main() {
 	fmt.Fprintf(os.Stderr, "%s: paths=%d outcomes=%v obligations=%d discharged=%d violations=%d unknown=%d queries=%d solver=%.1fs wall=%.1fs\n",
 		*entry, ex.paths, ex.outcomes, res.ObligationsSeen, res.Discharged, len(ex.violations), ex.unknownBranches, ex.queries,
 		ex.solverTime.Seconds(), res.WallS)
+	if *verbose {
+		for _, l := range sortedCounts(ex.forkSites, 25) {
+			fmt.Fprintln(os.Stderr, "  FORKS", l)
+		}
+	}
 	for _, u := range res.Unsupported {
 		fmt.Fprintln(os.Stderr, "  UNSUPPORTED", u)
 	}
